@@ -69,7 +69,7 @@ func (e *Engine) buildUnit(name string) (res *UnitResult) {
 		fc.freeBind[fv] = v
 		if isPointer(fv.Type()) {
 			vc.assert(mkNot(mkEq(v.one(), "0")))
-			fc.entryEnv[fv.Name()] = vc.load(st, e.rootLV(v.one(), pointee(fv.Type())))
+			fc.cells[fv.Name()] = v
 		} else {
 			fc.entryEnv[fv.Name()] = v
 		}
@@ -187,6 +187,18 @@ func (e *Engine) buildUnit(name string) (res *UnitResult) {
 		}
 	}
 	e.assertAxioms(fc, st)
+	// every call anchor of the contract must have matched a call site
+	if c != nil && vc.err == nil {
+		for _, a := range c.Ats {
+			if (a.Kind == "call" || a.Kind == "select") && !vc.atMatched[fmt.Sprintf("%s:%d", a.C.File, a.C.Line)] {
+				ord := "(any)"
+				if a.Ord >= 0 {
+					ord = fmt.Sprintf("#%d", a.Ord)
+				}
+				vc.err = fmt.Errorf("%s:%d: anchor `at call %s%s` matches no call site of %s", a.C.File, a.C.Line, a.Target, ord, name)
+			}
+		}
+	}
 	if vc.err != nil {
 		res.Err = vc.err
 	}
